@@ -13,6 +13,7 @@ package driver
 
 import (
 	"bytes"
+	"crypto/tls"
 	"fmt"
 	"io"
 	"net/http"
@@ -24,6 +25,7 @@ import (
 
 	"github.com/google/pprof/internal/plugin"
 	"github.com/google/pprof/internal/verifsim/simexec"
+	"github.com/google/pprof/internal/verifsim/simhttp"
 	"github.com/google/pprof/internal/verifsim/simos"
 	"github.com/google/pprof/internal/verifsim/simrt"
 	"github.com/google/pprof/profile"
@@ -54,10 +56,11 @@ const (
 	sfStall
 	sfReadErr
 	sfToolFails
+	sfCert // https source whose server certificate does not verify
 	nSF
 )
 
-var sfNames = [...]string{"good", "missing", "http404", "http500+pprof-body", "garbage", "torn", "invalid-profile", "fetcher-error", "stall->timeout", "disk-read-error", "converter-fails"}
+var sfNames = [...]string{"good", "missing", "http404", "http500+pprof-body", "garbage", "torn", "invalid-profile", "fetcher-error", "stall->timeout", "disk-read-error", "converter-fails", "certificate-untrusted"}
 var skNames = [...]string{"file", "url", "fetcher", "perf.data"}
 
 // modelSample is one sample of the generator's description of a source.
@@ -81,6 +84,7 @@ type c16src struct {
 	slowSecs int
 	comment  string // non-empty: a comment naming the source, to make the merge order visible
 	layout   int    // 0: the binary mapped at 0x1000; 1: at 0x400000, where the scripted local binary does not fit
+	scheme   int    // URL sources through pprof's own transport: 0 http, 1 https (trusted), 2 https to a self-signed server (fails), 3 https+insecure to a self-signed server
 	samples  []modelSample
 	addr     string
 	data     []byte
@@ -228,6 +232,15 @@ func c16Expected(srcs []*c16src, diffBase bool) refModel {
 }
 
 // ---- the simulated network and Fetcher ----
+
+// c16tls is the network below pprof's own transport: servers whose host name
+// starts with "self-" present a self-signed certificate.
+type c16tls struct{ n *c16net }
+
+func (t c16tls) CertTrusted(host string, cfg *tls.Config) bool {
+	return !strings.HasPrefix(host, "self-") || (cfg != nil && cfg.RootCAs != nil)
+}
+func (t c16tls) Serve(req *http.Request) (*http.Response, error) { return t.n.RoundTrip(req) }
 
 type c16net struct {
 	byHost  map[string]*c16src
@@ -438,6 +451,14 @@ func (s *c16src) materialize() {
 		s.addr = fmt.Sprintf("%ssrc%d.pb.gz", b, s.idx)
 	case skURL:
 		s.addr = fmt.Sprintf("http://%shost%d%s/debug/pprof/profile", b, s.idx, kindTag)
+		switch s.scheme {
+		case 1:
+			s.addr = "https://" + strings.TrimPrefix(s.addr, "http://")
+		case 2:
+			s.addr = "https://self-" + strings.TrimPrefix(s.addr, "http://")
+		case 3:
+			s.addr = "https+insecure://self-" + strings.TrimPrefix(s.addr, "http://")
+		}
 		if s.slowSecs > 0 {
 			s.addr += fmt.Sprintf("?seconds=%d", s.slowSecs)
 		}
@@ -466,6 +487,8 @@ type c16case struct {
 	diffBase   bool
 	hasBase    bool
 	remote     bool
+	realTransport bool // URL sources go through internal/transport over the simulated TLS network
+	tlsCA         int  // with realTransport: 0 no -tls_ca; 1 a CA file that makes the self-signed servers trusted; 2 a CA file that does not exist (every URL source fails)
 	saveENOSPC bool
 }
 
@@ -519,12 +542,15 @@ func (c *c16case) install() *c16net {
 			}
 			perfSrc[fmt.Sprintf("/sim/cwd/%s", s.addr)] = s
 		case skURL:
-			host := strings.TrimPrefix(s.addr, "http://")
+			host := s.addr[strings.Index(s.addr, "://")+3:]
 			host = host[:strings.Index(host, "/")]
 			n.byHost[host] = s
 		case skFetcher:
 			n.byFetch[s.addr] = s
 		}
+	}
+	if c.tlsCA == 1 {
+		simos.PutFile("/sim/cwd/ca.pem", []byte("-----BEGIN CERTIFICATE-----\nMIIB\n-----END CERTIFICATE-----\n"))
 	}
 	for _, id := range c.binaries {
 		simos.PutFile(c16Binaries+id+"/prog", []byte("\x7fELF fake binary "+id))
@@ -558,6 +584,12 @@ func (c *c16case) perfOnlyOutput() bool {
 
 func (c *c16case) args(onlyGood bool) []string {
 	args := []string{"-proto", "-output=out.pb.gz"}
+	switch c.tlsCA {
+	case 1:
+		args = append(args, "-tls_ca=ca.pem")
+	case 2:
+		args = append(args, "-tls_ca=no-such-ca.pem")
+	}
 	var srcs []string
 	for _, s := range c.srcs {
 		if onlyGood && s.fault != sfGood {
@@ -597,6 +629,12 @@ func (c *c16case) run(x *xctx, cfg simrt.Config, onlyGood bool, zeroLatency bool
 	ui := newTaskUI()
 	w := newWriter()
 	o := &plugin.Options{Flagset: newFlags(c.args(onlyGood)), UI: ui, Writer: w, Sym: nopSym{}, Obj: c16Obj{}, Fetch: net, HTTPTransport: net}
+	if c.realTransport {
+		// pprof's own transport (internal/transport) over the simulated network
+		o.HTTPTransport = nil
+		simhttp.SetNetwork(c16tls{net})
+		defer simhttp.SetNetwork(nil)
+	}
 	var out c16out
 	cfg.Tape = x.t
 	simos.StartLog()
@@ -798,7 +836,10 @@ func runC16(x *xctx) *violation {
 	if t.Bool(K, 35) {
 		nb = 1 + t.Choose(K, 3)
 	}
-	c := &c16case{diffBase: nb > 0 && t.Bool(K, 40), hasBase: nb > 0, saveENOSPC: t.Bool(simrt.KFault, 30)}
+	c := &c16case{diffBase: nb > 0 && t.Bool(K, 40), hasBase: nb > 0, saveENOSPC: t.Bool(simrt.KFault, 30), realTransport: t.Bool(K, 40)}
+	if c.realTransport && t.Bool(K, 30) {
+		c.tlsCA = 1 + t.Choose(K, 2)
+	}
 	pctFail := []int{0, 15, 40, 70, 97}[t.Choose(simrt.KFault, 5)]
 	multiBuild := t.Bool(K, 25) // the same binary name in several builds, some of them installed locally
 	if multiBuild {
@@ -824,6 +865,12 @@ func runC16(x *xctx) *violation {
 		s.tornAt = 1 + t.Choose(simrt.KFault, 200)
 		if commented {
 			s.comment = fmt.Sprintf("src%03d", i)
+		}
+		if c.realTransport && s.kind == skURL {
+			s.scheme = t.Choose(K, 4)
+			if s.fault == sfGood && ((s.scheme == 2 && c.tlsCA == 0) || c.tlsCA == 2) {
+				s.fault = sfCert
+			}
 		}
 		if multiBuild {
 			s.buildID = []string{"b1d", "b2d", "b3d"}[t.Choose(K, 3)]
